@@ -39,6 +39,7 @@ type Report struct {
 	SolveSec  float64
 	WallSec   float64
 	TimeoutMs int
+	Level     string
 	Stats     *SolveStats
 	Results   []*FuncResult
 	NPaths    int
@@ -279,6 +280,13 @@ func (r *Report) finish(evidenceDir, knownPath, replayDir string, want map[strin
 	return code
 }
 
+func (r *Report) levelOr() string {
+	if r.Level == "" {
+		return "proof"
+	}
+	return r.Level
+}
+
 func (r *Report) writeReplay(dir, prop string, s *OblSummary) string {
 	d := filepath.Join(dir, prop)
 	os.MkdirAll(d, 0o755)
@@ -355,12 +363,13 @@ func (r *Report) writeEvidence(dir, prop string, mine []*OblSummary, nobl, disch
 		"property_id": prop,
 		"tier":        r.Tier,
 		"seed":        seed,
-		"level":       "proof",
+		"level":       r.levelOr(),
 		"coverage": map[string]interface{}{
 			"obligations":             nobl,
 			"discharged":              discharged,
 			"known_findings":          known,
 			"checker_cmd":             "/verif/bin/govc check --props " + prop + " --tier " + r.Tier,
+			"explanation":             fmt.Sprintf("contract-based deductive verification of the real code: %d obligations were generated from /repo's current source for the contract clauses that carry this property (plus the safety, frame and call-precondition obligations of the functions they sit in), %d discharged by an SMT solver for all inputs, %d matched a recorded known finding, %d failed. Which part of the property's statement these clauses cover, and which part no contract reaches, is stated in MANIFEST.json level_claimed.text.", nobl, discharged, known, violations),
 			"trusted_base":            []string{"go/ssa + go/types (x/tools v0.29.0)", "govc VC generator (this repository, unverified)", "z3 5.1.0 / z3 4.8.12 / cvc5 1.0 (any one answering unsat)", "assumed contracts listed under assumptions"},
 			"functions_under_contract": fl,
 			"obligations_by_kind":     kinds,
